@@ -1,5 +1,6 @@
 import PynnVerif.Proofs.TopK
 import PynnVerif.Proofs.HeapSort
+import Mathlib.Data.Nat.Basic  -- `LinearOrder Nat` for the concrete example at the end
 
 /-!
 # C11 — the bounded top-k heap never loses a better candidate
@@ -34,7 +35,7 @@ theorem topk_checked (top : P) (htop : ∀ x : P, x ≤ top) (k : Nat) (d : Nat 
     ((∀ e ∈ h, 0 ≤ e.idx) ∨ (∀ o ∈ offers, d o.1 < top → ∃ e ∈ h, e.idx = (o.1 : Int))) ∧
     (∀ a ∈ h, 0 ≤ a.idx → ∀ o ∈ offers, d o.1 < top → (¬ ∃ e ∈ h, e.idx = (o.1 : Int)) →
         a.prio ≤ d o.1) := by
-  have hinv := run_inv true top htop k d offers (fun _ => nofun)
+  have hinv := run_inv true top htop k d offers nofun
   exact ⟨run_size _ _ _ _ _, hinv.heap, hinv.real, hinv.sent, hinv.nodup, hinv.full_or_all htop,
          hinv.best⟩
 
@@ -74,9 +75,12 @@ theorem deheapSort_spec (h : Row P) (hh : IsHeap h) :
   ⟨deheapSort_perm h, deheapSort_sorted h hh⟩
 
 /-- Non-vacuity: a concrete run with ties, a repeated candidate and an infinite offer
-(`P = Nat` capped at `top = 100`). -/
+(`P = Nat` capped at `top = 100`).  The tie at distance 5 is resolved in favour of
+candidate 0: candidate 2 becomes the root when pushed (`5 < 5` is false, no sift) and is
+the entry evicted by candidate 4.  (`decide +kernel`: `sift` is a well-founded recursion,
+which the elaborator's `decide` does not unfold; kernel evaluation adds no axioms.) -/
 example : (run true (100 : Nat) 3 (fun n => [5, 1, 5, 9, 2, 7, 100].getD n 100)
     [(0, true), (1, false), (2, true), (0, false), (3, true), (4, false), (5, true), (6, false)]).toList.map (·.idx)
-    = [2, 1, 4] := by decide
+    = [0, 4, 1] := by decide +kernel
 
 end Pynn.C11
